@@ -334,5 +334,9 @@ static void run_c19_cond(void)
 }
 SIM_WORKLOAD("C05", "cond-credit", run_c05, 10)
 /* the property also covers ABT_cond_timedwait's release-and-wait: same model, timed waiters */
-SIM_WORKLOAD("C05", "cond-credit-timed", run_c19_cond, 5)
+static void run_c05_timed(void)
+{
+    run_cond(1);
+}
+SIM_WORKLOAD("C05", "cond-credit-timed", run_c05_timed, 5)
 SIM_WORKLOAD("C19", "cond-timed", run_c19_cond, 10)
